@@ -27,7 +27,8 @@ INFO = {
     "trusted_base": [
         "harness glue in c15.py PRE: construction of the model object (instance dict + class chain) that mirrors the classes built in c15_impl.py",
         "the choice stream given to the model is read off the implementation's recorded roll-outs (Policy.run_on wrapped in the impl runner)",
-        "discount 9/10: cumulative rewards compared with tolerance 1e-9 (float products are rounded); 1/2 and 1 compared exactly",
+        "cumulative rewards / expected rewards: exact when float arithmetic on them is exact (dyadic rewards, discount 0, 1/2, 1), otherwise within "
+        "the float-noise bound fnoise = 4(n+2)2^-52 * sum|terms| (scaled by the magnitude of the terms, ~1e-14 for unit-size rewards)",
     ],
     "assumptions": [
         "Python attribute lookup is modelled as: instance dict, then first class along the MRO; functions found on a class are bound to the instance they are looked up through",
@@ -182,7 +183,7 @@ def boundary_tables(rng, T, gamma, feats):
     """parameter boundaries and number formats.  Nothing here needs a looser comparison: values that are only
     passed through (probabilities, rewards of the derived MDPs, matrices, one-step outcomes) are compared
     bit-exactly as doubles; cumulative rewards are compared exactly whenever float arithmetic on them is exact
-    (dyadic rewards, discount 0, 1/2, 1, short roll-outs) and with the 1e-9 absolute slack otherwise
+    (dyadic rewards, discount 0, 1/2, 1, short roll-outs) and within the float-noise bound fnoise (scaled by sum|terms|) otherwise
     (feature inexact_sums)."""
     n, nA = T["n"], T["nA"]
     def pos_rows(k):
@@ -631,6 +632,13 @@ def alt_dump(alt):
 
 
 # ----------------------------------------------------------------------------
+def fnoise(nterms, S):
+    """float-noise bound for a sum of nterms products evaluated in doubles whose exact absolute terms add up to S:
+    every factor is a double of an exact rational (relative 2^-53), a discount gamma^t is built by t roundings, each
+    product and each addition rounds once: error <= (1.5 n + 1) 2^-52 S; taken with a factor ~2.5 of safety."""
+    return 4.0 * (nterms + 2) * 2.0 ** -52 * float(S)
+
+
 class Checker:
     def __init__(self, ctx):
         self.ctx = ctx
@@ -1029,7 +1037,7 @@ class Checker:
             exact = gamma in (F(0), F(1), F(1, 2)) and "inexact_sums" not in bases[bidx]["features"]
             if "long_chain" in bases[bidx]["features"] and gamma in (F(0), F(1)):
                 exact = True               # integer step costs, discount 0 or 1: integer sums
-            tol = 0.0 if exact else 1e-9
+            tol = 0.0            # exact; replaced below by the float-noise bound of the recorded simulations when sums are inexact
             if fl(res["base_discounts"][bidx]) != float(gamma):
                 self.violation("C15:harness:base-discount", {"case": case}, found=False)
             if bidx:
@@ -1074,7 +1082,8 @@ class Checker:
                         okm = sorted(md) == sorted(gotp)
                         okm = okm and self.close_dist([((ns, t), float(p)) for ns, t, p in d[1]], [((k[0], k[1]), fl(p)) for k, p in qres["nst"]["value"]], 1e-12)
                         okm = okm and self.close_dist([(ns, float(p)) for ns, p in d[2]], [(k, fl(p)) for k, p in qres["ns"]["value"]], 1e-12)
-                        okm = okm and abs(float(d[3]) - fl(qres["ecr"]["value"])) <= 1e-9
+                        okm = okm and abs(float(d[3]) - fl(qres["ecr"]["value"])) <= \
+                            fnoise(len(T["trans"][sid][idx]), sum(abs(F(p_) * F(T["rew"][sid][idx][ns_])) for ns_, p_ in T["trans"][sid][idx]))
                     if not okm:
                         self.violation("C15:smdp:primitive:model-differs", dict(detail, model=str(val)[:1500]), found=bool(clause), once_key="pm")
                 elif not avail and tag != 2:
@@ -1110,6 +1119,8 @@ class Checker:
                     cum = sum((vlib.frac(r) * gamma ** t for t, r in enumerate(sim["rewards"])), F(0))
                     k = (sim["final"], len(sim["states"]), cum)
                     emp[k] = emp.get(k, 0) + 1
+                if not exact:
+                    tol = max([fnoise(len(sim["rewards"]), sum(abs(vlib.frac(r)) * gamma ** t for t, r in enumerate(sim["rewards"]))) for sim in sims] + [0.0])
                 got = [((k[0], k[1], vlib.frac(k[2])), vlib.frac(p)) for k, p in nstr["value"]]
                 clause = self.compare_outcome(emp, n, got, tol)
                 if clause is None and abs(sum(float(p) for _, p in got) - 1.0) > 1e-12:
@@ -1129,7 +1140,7 @@ class Checker:
                         clause = "(end state, steps) marginal is not the push-forward of the outcome distribution"
                     elif not self.close_dist(sorted((k, float(p)) for k, p in want_ns.items()), sorted((k, fl(p)) for k, p in qres["ns"]["value"]), 1e-12):
                         clause = "end-state marginal is not the push-forward of the outcome distribution"
-                    elif abs(float(want_ecr) - fl(qres["ecr"]["value"])) > 1e-9 * max(1.0, abs(float(want_ecr))):
+                    elif abs(float(want_ecr) - fl(qres["ecr"]["value"])) > fnoise(len(emp), sum(abs(k[2]) * F(c, n) for k, c in emp.items())) + tol:
                         clause = "expected cumulative reward is not the mean over the simulations"
             if clause:
                 self.violation("C15:smdp:option:" + clause, dict(detail, clause=clause), found=True, once_key=clause)
@@ -1165,22 +1176,23 @@ class Checker:
                         if okm and [k for k, _ in md] != [k for k, _ in got]:
                             self.bump("key_order_drift")
                     else:
-                        # keys carry a rounded cumulative reward: match them one-to-one within the 1e-9 slack
+                        # keys carry a rounded cumulative reward: match them one-to-one within the float-noise bound tol
                         rest = list(got)
                         okm = len(md) == len(got)
                         for (k, p_) in md:
-                            hit = [i for i, (k2, p2) in enumerate(rest) if k2[:2] == k[:2] and abs(float(k2[2]) - float(k[2])) <= 1e-9
+                            hit = [i for i, (k2, p2) in enumerate(rest) if k2[:2] == k[:2] and abs(float(k2[2]) - float(k[2])) <= tol
                                    and float(p2) == float(p_)]
                             if not hit:
                                 okm = False
                                 break
                             rest.pop(hit[0])
-                        if okm and any(a[0][:2] != b[0][:2] or abs(float(a[0][2]) - float(b[0][2])) > 1e-9 for a, b in zip(md, got)):
+                        if okm and any(a[0][:2] != b[0][:2] or abs(float(a[0][2]) - float(b[0][2])) > tol for a, b in zip(md, got)):
                             self.bump("key_order_drift")
                     okm = okm and d[4] == 1
                     okm = okm and self.close_dist([((ns, t), float(p)) for ns, t, p in d[1]], [((k[0], k[1]), fl(p)) for k, p in qres["nst"]["value"]], 1e-12)
                     okm = okm and self.close_dist([(ns, float(p)) for ns, p in d[2]], [(k, fl(p)) for k, p in qres["ns"]["value"]], 1e-12)
-                    okm = okm and abs(float(d[3]) - fl(qres["ecr"]["value"])) <= 1e-9 * max(1.0, abs(float(d[3])))
+                    okm = okm and abs(float(d[3]) - fl(qres["ecr"]["value"])) <= \
+                        fnoise(len(md), sum(abs(float(k_[2]) * float(p_)) for k_, p_ in md)) + tol
             if not okm:
                 self.violation("C15:smdp:option:model-differs", dict(detail, model=str(val)[:2000]), found=bool(clause), once_key="om")
 
